@@ -226,12 +226,16 @@ def nest(kind, g):
     if kind == 'd':                       # mixed depth: [[first half], [[second half]]]
         h = (len(g) + 1) // 2
         return [list(g[:h]), [list(g[h:])]] if len(g) > 1 else [[[g[0]]]]
+    if kind == 'r':                       # rows: two halves; equal halves are ONE row object listed twice ([row] * 2)
+        h = (len(g) + 1) // 2
+        first = list(g[:h])
+        return [first, first if list(g[h:]) == first else list(g[h:])] if len(g) > 1 else [[g[0]]]
     raise ValueError(kind)
 
 
 def render(shape, items):
     """shape: [[kind, size], ...] ->  (argument texts, variable bindings)"""
-    args, vars_ = [], {}
+    args, vars_, shared = [], {}, {}
     pos = sc = 0
     for gi, (kind, m) in enumerate(shape):
         g = items[pos:pos + m]
@@ -249,8 +253,12 @@ def render(shape, items):
             h = (m + 1) // 2
             args.append('{' + ','.join(lit(x) for x in g[:h]) + ';' + ','.join(lit(x) for x in g[h:]) + '}')
         else:
-            name = 'arr' + AZ[gi]
-            vars_[name] = nest(kind, g)
+            # a host list that occurs twice with the same content is handed in as ONE object named twice (SUM(arra,arra))
+            key = (kind, tuple(g))
+            name = shared.get(key)
+            if name is None:
+                name = shared[key] = 'arr' + AZ[gi]
+                vars_[name] = nest(kind, g)
             args.append(name)
     if pos != len(items):
         raise ValueError('shape does not cover the list')
@@ -258,7 +266,7 @@ def render(shape, items):
 
 
 K1_ALL = ('a', 's', 'l', 'h', 'n')
-K2_ALL = ('a', 's', 'l', 'm', 'h', 'n', 'd')
+K2_ALL = ('a', 's', 'l', 'm', 'h', 'n', 'd', 'r')
 K1_RED = ('a', 'l', 'h', 'n')
 K2_RED = ('a', 'l', 'm', 'h', 'n')
 
@@ -364,7 +372,8 @@ class Definitions(AggBase):
 class Regrouping(AggBase):
     name = 'c11.regrouping'
     rule = ('a list x every split into consecutive groups x every rendering of each group (literal arguments, '
-            'scalar variables, literal array, 2-D literal array, host flat / right-nested / mixed-depth list) '
+            'scalar variables, literal array, 2-D literal array, host flat / right-nested / mixed-depth list / two rows; host lists of equal '
+            'content are ONE object named twice, equal rows ONE row object listed twice) '
             'x 15 order-free functions equals the reference statistic of the flat list (all permutations of '
             'every list are in the space); non-trivial = evaluation with >= 2 groups or a nested rendering')
     min_cases = 100
